@@ -75,6 +75,12 @@ def resolve1d(md, st_, kind, inlet, outlet, lowmach=False):
             m = math.copysign(st_["nearsonic"], m if m != 0 else 1.0)            # high subsonic: 0.85 .. 0.999
         else:
             m = 0.95 * m / 3.0 if abs(m) >= 0.01 else 0.0
+    elif kind == "anyregime":
+        if not lowmach:          # (solves: treated as the ordinary supersonic case)
+            kind = "supersonic"
+            m = math.copysign(1.05 + 2.0 * abs(m) / 3.0, m if m != 0 else 1.0)
+        else:
+            m = math.copysign(1.05 + 2.5 * abs(m), m if m != 0 else 1.0)         # Mach 1.05 .. 8.55
     elif kind == "supersonic":
         if st_.get("nearsonic") is not None:
             m = math.copysign(2.0 - st_["nearsonic"], m if m != 0 else 1.0)      # low supersonic: 1.001 .. 1.15
@@ -111,6 +117,12 @@ def resolve1d(md, st_, kind, inlet, outlet, lowmach=False):
         bi = {"type": "insup", "ptot": pt, "rttot": rt, "p": p}
         bo = {"type": "outsup"}
         return (s, bi, bo) if m >= 0 else (s, bo, bi)
+    if kind == "anyregime":
+        # the statement holds for any condition whose parameters are those of the state, whatever the regime: the total-state inlets and the pressure outlets
+        # with a supersonic or hypersonic uniform state (operator-level checks)
+        bi = {"type": inlet, "ptot": pt, "rttot": rt}
+        bo = {"type": outlet, "p": p}
+        return (s, bi, bo) if m >= 0 else (s, bo, bi)
     if kind == "mixed":     # dirichlet upstream, supersonic outlet downstream
         s["mach"] = m = math.copysign(1.05 + 2.0 * abs(m) / 3.0, m if m != 0 else 1.0)
         u = m * math.sqrt(g * p / rho)
@@ -140,7 +152,7 @@ def _kinds(md):
         return ["wall", "dirichlet"]
     if name == "shallowwater":
         return ["per", "dirichlet", "wall", "subsonic"]
-    return ["per", "dirichlet", "wall", "subsonic", "subsonic", "supersonic", "mixed"]
+    return ["per", "dirichlet", "wall", "subsonic", "subsonic", "supersonic", "mixed", "anyregime"]
 
 
 def _models():
